@@ -7,7 +7,7 @@ git -C /repo worktree add -q --detach $WT HEAD || exit 2
 trap "git -C /repo worktree remove --force $WT >/dev/null 2>&1; rm -rf $B" EXIT
 mkdir -p $B
 if [ -f $D/demo.cpp ]; then
-  EXTRA=$( (grep -o '\-DTETL_[A-Z_]*=[0-9]*' $D/notes.md; head -3 $D/demo.cpp | grep 'g++' | grep -o '\-funsigned-char') 2>/dev/null | sort -u | tr '\n' ' ')
+  EXTRA=$( (grep -o '\-DTETL_[A-Z_]*=[0-9]*' $D/notes.md; head -3 $D/demo.cpp | grep 'g++' | grep -o '\-funsigned-char\|-fno-exceptions') 2>/dev/null | sort -u | tr '\n' ' ')
   g++ -std=c++20 $EXTRA -I$WT/include $D/demo.cpp -o $B/demo0 2>$B/demo0.log && (timeout 60 $B/demo0 >/dev/null 2>&1; echo "demo without patch: exit $?") || echo "demo without patch: BUILD FAILED"
 fi
 git -C $WT apply $D/patch.diff || { echo "PATCH DOES NOT APPLY"; exit 2; }
